@@ -982,6 +982,9 @@ func C09(seed uint64, run int) *spec.Spec {
 	if r2 := NewRng(seed, 1009, run); !crowd && r2.Chance(FloodP) {
 		fl := c09flood(r2, g)
 		f.Flood = true
+		// the run's overall step cap (a machinery guard: exceeding it is exit 2, no verdict) grows with the flood; a call
+		// that spins is still caught by its own per-call budget
+		s.Config.StepCap = 600_000_000 + uint64(fl.Count)*2_000_000
 		if NewRng(seed, 2009, run).Chance(0.15) {
 			// a HOT KEY instead of distinct ones: the very same call, count times (hit counters that age or
 			// saturate, adaptive structures that reorganise after N hits on one entry)
